@@ -58,6 +58,9 @@ AllOps(ls, i, h) ==
            body == IF (h \div 11) % 7 = 0 /\ i = 1 THEN Tail(LoopOps(ls[i], 1)) ELSE LoopOps(ls[i], 1)
        IN body \o (IF closed THEN << <<"Z">> >> ELSE <<>>)
                \o (IF extra THEN << <<"L", 2 * ls[i][2][1] + 1, 2 * ls[i][1][2] + 1>> >> ELSE <<>>)
+               \* (a single LineTo after Close encloses nothing: every other continuation has a second vertex, so
+               \* that the subpath continued from the closed subpath's start has an interior)
+               \o (IF extra /\ ((h \div 13) + i) % 2 = 0 THEN << <<"L", 2 * ls[i][1][1] + 1, 2 * ls[i][2][2] + 3>> >> ELSE <<>>)
                \o AllOps(ls, i + 1, h)
 VariantPath(j) ==
   LET h == H + 7919 * j
